@@ -33,6 +33,10 @@ try:
     rc0, out0 = run(f"/venv/bin/python {cand}/demo.py", env=e, cwd=wt, timeout=600)
     res["demo_clean_rc"] = rc0
     rc, out = run(f"git -C {wt} apply {cand}/patch.diff")
+    if rc != 0:
+        # the seeded change was written against an earlier /repo HEAD: fall back to a 3-way application
+        rc, out = run(f"git -C {wt} apply --3way {cand}/patch.diff")
+        res["applied_3way"] = True
     res["patch_applies"] = rc == 0
     assert rc == 0, out
     rc1, out1 = run(f"/venv/bin/python {cand}/demo.py", env=e, cwd=wt, timeout=600)
